@@ -9,6 +9,14 @@ package main
 // Trace_LoggerCid.tla accepts or rejects. The binary is built with -race: a race report that
 // involves the logger package is a violation of the property's data-race clause.
 //
+// Operands (the property's "message"): a logging call gets them written out in the call ("lit") or as
+// a window back[:n] of a slice the CALLER owns, whose backing array has cap >= n cells filled by the
+// application - a goroutine's own slice, used again call after call with different contexts, or one
+// made by the main goroutine that all goroutines pass read-only at the same time. After every call the
+// caller looks at its slice up to the capacity: the specification's call only reads its operands
+// (LoggerCid!OperandsUntouched), and every line must end in what the operands, as the application
+// filled them, format to.
+//
 // The id a context carries is not readable through the public API (the key is unexported), so it
 // is read the way an application sees it: after the concurrent phase every context made in the run
 // is logged once through T and once through Tf and the id is parsed from the '[pid][cid]' prefix.
@@ -24,6 +32,7 @@ import (
 	"path/filepath"
 	"regexp"
 	"runtime/debug"
+	"sort"
 	"strconv"
 	"strings"
 	"sync"
@@ -45,12 +54,22 @@ type mixT struct {
 	Log   int    `json:"log"`
 }
 
+// how the operands of logging calls are passed, in percent
+type opndT struct {
+	Name   string `json:"name"`
+	Lit    int    `json:"lit"`    // written out in the call
+	Own    int    `json:"own"`    // window of the goroutine's own slice, used again and again
+	Shared int    `json:"shared"` // window of a slice all goroutines pass (read-only) at the same time
+}
+
 type runDesc struct {
-	N      int  `json:"n"`
-	Ops    int  `json:"ops"`
-	Mix    mixT `json:"mix"`
-	Shared int  `json:"shared"`
-	Closer bool `json:"closer"`
+	N      int   `json:"n"`
+	Ops    int   `json:"ops"`
+	Mix    mixT  `json:"mix"`
+	Shared int   `json:"shared"`
+	Closer bool  `json:"closer"`
+	Opnd   opndT `json:"opnd"`
+	Caps   []int `json:"caps"` // capacities of the caller-owned operand slices (a window is 1..cap cells)
 }
 
 // names as in the specification
@@ -63,6 +82,43 @@ type argT struct {
 	K string `json:"k"` // nil | bg | obj | ctx
 	G int    `json:"g"`
 	I int    `json:"i"`
+}
+
+// how the operands of a call were passed (LoggerCid!Lit / Win)
+type srcT struct {
+	K string  `json:"k"` // lit | win
+	B ctxName `json:"b"`
+	N int     `json:"n"`
+}
+
+// a caller-owned operand slice: back[:n] is what a call is given, cap(back) == len(back)
+type opBuf struct {
+	name   ctxName
+	back   []interface{} // the storage the library sees
+	want   []interface{} // the application's own record of what it put there (never handed out)
+	shrTok string        // shared slices: the token in cell 0
+}
+
+// abstract cells (LoggerCid!buf): j+1 = what the application put into cell j, 0 = something else
+func (b *opBuf) cells() (abs []int, same bool) {
+	abs = make([]int, len(b.want))
+	same = true
+	for j := range b.want {
+		v := b.back[j]
+		switch {
+		case v == b.want[j]:
+			abs[j] = j + 1
+		default:
+			same = false
+			for k := range b.want {
+				if v == b.want[k] {
+					abs[j] = k + 1
+					break
+				}
+			}
+		}
+	}
+	return
 }
 
 type observed struct {
@@ -78,7 +134,7 @@ type observed struct {
 type event struct {
 	kind  string // new | alias | log
 	c     ctxName
-	src   argT
+	asrc  argT
 	ctx   context.Context
 	k     int
 	level string
@@ -87,6 +143,11 @@ type event struct {
 	token string
 	text  string
 	w     []observed
+	src   srcT
+	buf   *opBuf
+	shr   string // a call without a token of its own: the token of the shared slice it printed
+	after []int  // the caller's slice after the call, abstract cells
+	cap   int    // kind "buf"
 }
 
 type ctxEntry struct {
@@ -126,6 +187,8 @@ func (w *recWriteCloser) Close() error { w.closed++; return nil }
 var (
 	lineRe   = regexp.MustCompile(`^\[(info|trace|warn|error)\] (\d{4}/\d\d/\d\d) (\d\d:\d\d:\d\d\.\d{6}) (.*)$`)
 	tokRe    = regexp.MustCompile(`(tok|probe):r\d+:g\d+:[ki]\d+(:[ab])?;`)
+	shrRe    = regexp.MustCompile(`shr:r\d+:b\d+;`)
+	anyTokRe = regexp.MustCompile(`(tok|probe):r\d+:g\d+:[ki]\d+(:[ab])?;|shr:r\d+:b\d+;`)
 	pidCidRe = regexp.MustCompile(`^\[(\d+)\]\[(-?\d+)\] {1,2}$`)
 	pidRe    = regexp.MustCompile(`^\[(\d+)\] {1,2}$`)
 )
@@ -146,7 +209,7 @@ func parseWrite(p []byte, text string) (o observed) {
 	rest := string(m[4])
 	if !strings.HasSuffix(rest, text) {
 		o.why = "message differs from the one passed"
-		if j := strings.Index(rest, text[:strings.Index(text, ";")+1]); j >= 0 {
+		if j := strings.Index(rest, anyTokRe.FindString(text)); j >= 0 && anyTokRe.FindString(text) != "" {
 			rest = rest[:j]
 		} else {
 			return
@@ -163,7 +226,7 @@ func parseWrite(p []byte, text string) (o observed) {
 	} else if rest == "" {
 		o.Pid, o.Cid = 0, 0
 	}
-	o.Whole = o.why == "" && len(tokRe.FindAllString(string(p), -1)) == 1
+	o.Whole = o.why == "" && strings.Join(anyTokRe.FindAllString(string(p), -1), "") == strings.Join(anyTokRe.FindAllString(text, -1), "")
 	if o.why == "" && !o.Whole {
 		o.why = "carries the message of more than one call"
 	}
@@ -180,7 +243,7 @@ func randText(rng *rand.Rand) string {
 	}
 	s := string(b)
 	// must not look like one of our tokens
-	return strings.Replace(strings.Replace(s, "tok:", "tok_", -1), "probe:", "probe_", -1)
+	return strings.Replace(strings.Replace(strings.Replace(s, "tok:", "tok_", -1), "probe:", "probe_", -1), "shr:", "shr_", -1)
 }
 
 var logFns = []string{"I", "If", "T", "Tf", "W", "Wf", "E", "Ef",
@@ -198,7 +261,16 @@ func levelOf(fn string) string {
 	return "error"
 }
 
-// doLog performs one logging call; returns the message text the line must end with.
+// verbs for n operands of a printf-style call
+func verbs(n int) string {
+	if n == 0 {
+		return ""
+	}
+	return "%v" + strings.Repeat("|%v", n-1)
+}
+
+// doLog performs one logging call with operands written out in the call; returns the message text
+// the line must end with.
 func doLog(rng *rand.Rand, fn string, ctx logger.Context, token string) string {
 	extra := randText(rng)
 	num := rng.Intn(1 << 20)
@@ -227,6 +299,12 @@ func doLog(rng *rand.Rand, fn string, ctx logger.Context, token string) string {
 		}
 		text = strings.TrimSuffix(fmt.Sprintln(a...), "\n")
 	}
+	callLog(fn, ctx, format, a)
+	return text
+}
+
+// callLog hands the operand slice a to the library as it is (a... does not copy).
+func callLog(fn string, ctx logger.Context, format string, a []interface{}) {
 	switch fn {
 	case "I":
 		logger.I(ctx, a...)
@@ -263,7 +341,6 @@ func doLog(rng *rand.Rand, fn string, ctx logger.Context, token string) string {
 	default:
 		rp.Bug("unknown logging function %q", fn)
 	}
-	return text
 }
 
 type worker struct {
@@ -276,6 +353,53 @@ type worker struct {
 	evs    []event
 	nlog   int
 	panic  string
+	bufs   []*opBuf // own operand slices, one per capacity of the run, made when first used
+	nbuf   int
+	shbufs []*opBuf // made by the main goroutine, passed read-only by everybody
+	probs  []bufProblem
+}
+
+// what a goroutine saw when it looked at its operand slice after a call
+type bufProblem struct {
+	class string
+	what  string
+}
+
+// newBuf: the application makes an operand slice with `capacity` cells, all filled by it with values
+// that differ from each other (a window of a larger record: the cells behind the window matter as well).
+// Slices that several goroutines pass at the same time hold strings only.
+func (w *worker) newBuf(capacity int, shared bool) *opBuf {
+	w.nbuf++
+	b := &opBuf{name: ctxName{w.g, w.nbuf}, back: make([]interface{}, capacity), want: make([]interface{}, capacity)}
+	for j := range b.back {
+		var v interface{}
+		switch {
+		case shared || j%3 == 1:
+			v = fmt.Sprintf("c%d.%s", j, randText(w.rng))
+		case j%3 == 2:
+			v = 1000*j + w.rng.Intn(1000)
+		default:
+			v = float64(j) + 0.25
+		}
+		b.back[j], b.want[j] = v, v
+	}
+	if shared {
+		b.shrTok = fmt.Sprintf("shr:r%d:b%d;", w.run, w.nbuf)
+		b.back[0], b.want[0] = b.shrTok, b.shrTok
+	}
+	w.evs = append(w.evs, event{kind: "buf", c: b.name, cap: capacity, buf: b})
+	return b
+}
+
+func (w *worker) ownBuf() *opBuf {
+	if w.bufs == nil {
+		w.bufs = make([]*opBuf, len(w.d.Caps))
+	}
+	k := w.rng.Intn(len(w.d.Caps))
+	if w.bufs[k] == nil {
+		w.bufs[k] = w.newBuf(w.d.Caps[k], false)
+	}
+	return w.bufs[k]
 }
 
 func (w *worker) pickCtx() (ctxEntry, bool) {
@@ -316,7 +440,7 @@ func (w *worker) parent() context.Context {
 func (w *worker) made(kind string, src argT, ctx context.Context) {
 	name := ctxName{w.g, len(w.own) + 1}
 	w.own = append(w.own, ctxEntry{name, ctx})
-	w.evs = append(w.evs, event{kind: kind, c: name, src: src, ctx: ctx})
+	w.evs = append(w.evs, event{kind: kind, c: name, asrc: src, ctx: ctx})
 }
 
 func (w *worker) opNew() {
@@ -336,7 +460,9 @@ func (w *worker) opAlias() {
 
 var objIDs = []int{1, 7, 999, 1000, 1001, 1002, 1010, 1500, 65536, 2147483647}
 
-func (w *worker) opLog() {
+func (w *worker) opLog() { w.opLogHow(w.pickSrc()) }
+
+func (w *worker) opLogHow(how string) {
 	fn := logFns[w.rng.Intn(len(logFns))]
 	var ctx logger.Context
 	var arg argT
@@ -356,11 +482,102 @@ func (w *worker) opLog() {
 	default:
 		ctx, arg = nil, argT{K: "nil"}
 	}
+	w.logWith(fn, ctx, arg, how)
+}
+
+func (w *worker) pickSrc() string {
+	if len(w.d.Caps) == 0 {
+		return "lit"
+	}
+	r := w.rng.Intn(100)
+	switch {
+	case r < w.d.Opnd.Lit:
+		return "lit"
+	case r < w.d.Opnd.Lit+w.d.Opnd.Own || len(w.shbufs) == 0:
+		return "own"
+	}
+	return "shared"
+}
+
+// one logging call, operands passed as `how` says
+func (w *worker) logWith(fn string, ctx logger.Context, arg argT, how string) {
 	w.nlog++
 	token := fmt.Sprintf("tok:r%d:g%d:k%d;", w.run, w.g, w.nlog)
-	ev := event{kind: "log", k: w.nlog, level: levelOf(fn), fn: fn, arg: arg, token: token}
-	ev.text = doLog(w.rng, fn, ctx, token)
+	ev := event{kind: "log", k: w.nlog, level: levelOf(fn), fn: fn, arg: arg, token: token, src: srcT{K: "lit"}, after: []int{}}
+	if how == "lit" {
+		ev.text = doLog(w.rng, fn, ctx, token)
+		w.evs = append(w.evs, ev)
+		return
+	}
+	var b *opBuf
+	if how == "own" {
+		// the goroutine's own slice: it writes this call's token into cell 0 and passes a window
+		b = w.ownBuf()
+		v := token + randText(w.rng)
+		b.back[0], b.want[0] = v, v
+	} else {
+		b = w.shbufs[w.rng.Intn(len(w.shbufs))]
+	}
+	n := 1 + w.rng.Intn(len(b.want))
+	printf := strings.HasSuffix(fn, "f")
+	var format string
+	if printf {
+		format = verbs(n)
+		if how == "shared" {
+			format = token + " " + format // the format is the call's own: it can carry a token
+		}
+		ev.text = fmt.Sprintf(format, b.want[:n]...)
+	} else {
+		ev.text = strings.TrimSuffix(fmt.Sprintln(b.want[:n]...), "\n")
+		if how == "shared" {
+			ev.token, ev.shr = "", b.shrTok // all operands are the shared ones: no token of its own
+		}
+	}
+	// what the caller finds in its slice (up to the capacity) before and after the call; a slice passed by
+	// several goroutines is blamed on this call only if it changed while the call ran
+	before, _ := b.cells()
+	callLog(fn, ctx, format, b.back[:n])
+	after, same := b.cells()
+	ev.src, ev.buf, ev.after = srcT{K: "win", B: b.name, N: n}, b, after
+	if !same && !sameInts(before, after) {
+		class := ""
+		if isShiftOf(before, after, n) {
+			class = "C18/prefix-inserted-in-place"
+		}
+		if len(w.probs) < 4 {
+			w.probs = append(w.probs, bufProblem{class, fmt.Sprintf(
+				"goroutine %d call %d logger.%s(%s ctx, back[:%d]...) with %s operand slice %v (cap %d): the caller's slice is not what it was before the call: cells %v -> %v (j = the application's cell j, 0 = foreign), cell 0 now %.40q",
+				w.g, ev.k, fn, arg.K, n, map[string]string{"own": "the goroutine's own", "shared": "the shared read-only"}[how], b.name, len(b.want), before, after, fmt.Sprint(b.back[0]))})
+		} else {
+			w.probs = append(w.probs, bufProblem{class, ""})
+		}
+	}
 	w.evs = append(w.evs, ev)
+}
+
+func sameInts(a, b []int) bool {
+	if len(a) != len(b) {
+		return false
+	}
+	for i := range a {
+		if a[i] != b[i] {
+			return false
+		}
+	}
+	return true
+}
+
+// after = the in-place insert applied to `before` for a window of n cells
+func isShiftOf(before, after []int, n int) bool {
+	if n >= len(after) || after[0] != 0 {
+		return false
+	}
+	for j := 1; j < len(after); j++ {
+		if (j <= n && after[j] != before[j-1]) || (j > n && after[j] != before[j]) {
+			return false
+		}
+	}
+	return true
 }
 
 func (w *worker) body(start <-chan struct{}, wg *sync.WaitGroup) {
@@ -459,6 +676,15 @@ func oneRun(c *rp.Ctx, run int, raw json.RawMessage, rr *raceReader, dir string)
 	if d.N < 1 || d.Ops < 1 || d.Mix.New+d.Mix.Alias+d.Mix.Log != 100 {
 		rp.Bug("malformed run descriptor %s", raw)
 	}
+	if len(d.Caps) > 0 && d.Opnd.Lit+d.Opnd.Own+d.Opnd.Shared != 100 {
+		rp.Bug("malformed run descriptor (operand mix) %s", raw)
+	}
+	sort.Ints(d.Caps)
+	for _, c := range d.Caps {
+		if c < 1 {
+			rp.Bug("malformed run descriptor (capacity) %s", raw)
+		}
+	}
 	pid := os.Getpid()
 	var problems []string
 	classes := map[string]int{} // named deviation ("" = none) -> number of problems
@@ -487,12 +713,29 @@ func oneRun(c *rp.Ctx, run int, raw json.RawMessage, rr *raceReader, dir string)
 	for i := 0; i < d.Shared; i++ {
 		mainW.opNew()
 	}
+	// ... and the operand slices all goroutines will pass read-only, one per capacity. The main goroutine
+	// is their first user, alone: a few calls one after the other with the same slice and different
+	// contexts, and the same with a slice of its own.
+	if d.Opnd.Shared > 0 {
+		for _, c := range d.Caps {
+			mainW.shbufs = append(mainW.shbufs, mainW.newBuf(c, true))
+		}
+	}
+	if len(d.Caps) > 0 && d.Opnd.Own+d.Opnd.Shared > 0 {
+		for i := 0; i < 4*len(d.Caps); i++ {
+			how := "own"
+			if len(mainW.shbufs) > 0 && i%2 == 0 {
+				how = "shared"
+			}
+			mainW.opLogHow(how)
+		}
+	}
 	ws := make([]*worker, d.N+1)
 	ws[0] = mainW
 	start := make(chan struct{})
 	var wg sync.WaitGroup
 	for g := 1; g <= d.N; g++ {
-		ws[g] = &worker{g: g, run: run, d: d, rng: rand.New(rand.NewSource(seedOf(c.Seed, raw, g))), shared: mainW.own}
+		ws[g] = &worker{g: g, run: run, d: d, rng: rand.New(rand.NewSource(seedOf(c.Seed, raw, g))), shared: mainW.own, shbufs: mainW.shbufs}
 		wg.Add(1)
 		go ws[g].body(start, &wg)
 	}
@@ -521,15 +764,32 @@ func oneRun(c *rp.Ctx, run int, raw json.RawMessage, rr *raceReader, dir string)
 	// tokenise the writes
 	type ref struct{ g, idx int }
 	byTok := map[string]ref{}
-	nNew, nAlias, nLog, nRouted := 0, 0, 0, 0
+	byShr := map[string][]ref{} // token of a shared slice -> the calls that have no token of their own, in program order
+	nNew, nAlias, nLog, nRouted, nBuf, nWin := 0, 0, 0, 0, 0, 0
 	for g, w := range ws {
 		if w.panic != "" {
 			bad("%s", w.panic)
 		}
+		for _, pr := range w.probs {
+			if pr.what == "" {
+				classes[pr.class]++
+			} else {
+				badAs(pr.class, "%s", pr.what)
+			}
+		}
 		for i := range w.evs {
 			switch w.evs[i].kind {
+			case "buf":
+				nBuf++
 			case "log":
-				byTok[w.evs[i].token] = ref{g, i}
+				if w.evs[i].token != "" {
+					byTok[w.evs[i].token] = ref{g, i}
+				} else {
+					byShr[w.evs[i].shr] = append(byShr[w.evs[i].shr], ref{g, i})
+				}
+				if w.evs[i].src.K == "win" {
+					nWin++
+				}
 				nLog++
 				if w.evs[i].level != "info" {
 					nRouted++
@@ -542,8 +802,9 @@ func oneRun(c *rp.Ctx, run int, raw json.RawMessage, rr *raceReader, dir string)
 		}
 	}
 	probeObs := map[string][]observed{}
-	firstTok := make([]string, len(writes)) // the call a write is ordered by in the trace
+	firstRef := make([]*ref, len(writes)) // the call a write is ordered by in the trace
 	orphan := make([]bool, len(writes))
+	var tokenless []int // writes that carry no token of a call
 	for n, p := range writes {
 		toks := tokRe.FindAllString(string(p), -1)
 		known := 0
@@ -553,8 +814,9 @@ func oneRun(c *rp.Ctx, run int, raw json.RawMessage, rr *raceReader, dir string)
 				o := parseWrite(p, ev.text)
 				o.idx = n
 				ev.w = append(ev.w, o)
-				if firstTok[n] == "" {
-					firstTok[n] = t
+				if firstRef[n] == nil {
+					rr := r
+					firstRef[n] = &rr
 				}
 				known++
 			} else if text, ok := probeText[t]; ok {
@@ -565,8 +827,7 @@ func oneRun(c *rp.Ctx, run int, raw json.RawMessage, rr *raceReader, dir string)
 			}
 		}
 		if known == 0 {
-			orphan[n] = true
-			bad("write #%d at the writer belongs to no logging call (not a whole line of one call): %q", n, clip(p))
+			tokenless = append(tokenless, n)
 		}
 	}
 	for _, w := range ws {
@@ -596,6 +857,62 @@ func oneRun(c *rp.Ctx, run int, raw json.RawMessage, rr *raceReader, dir string)
 		}
 	}
 
+	// writes without a call's token: lines of println-style calls whose operands were all taken from a shared
+	// slice. A write is given to a call that has none yet and was made with that slice: first one whose line
+	// (label, prefix, message) it is exactly, then one with the same label and message, then any.
+	wantPrefix := func(ev *event) (int, int, bool) {
+		switch ev.arg.K {
+		case "nil":
+			return pid, 0, true
+		case "obj":
+			return pid, ev.arg.I, true
+		case "ctx":
+			return pid, ids[ctxName{ev.arg.G, ev.arg.I}], true
+		}
+		return 0, 0, false
+	}
+	for _, n := range tokenless {
+		p := writes[n]
+		var cands []ref
+		for _, t := range shrRe.FindAllString(string(p), -1) {
+			if cands = byShr[t]; cands != nil {
+				break
+			}
+		}
+		best, rank := -1, 0
+		for k, r := range cands {
+			ev := &ws[r.g].evs[r.idx]
+			if len(ev.w) > 0 {
+				continue
+			}
+			o := parseWrite(p, ev.text)
+			rk := 1
+			if o.Whole && o.Label == ev.level {
+				rk = 2
+				if wp, wc, judged := wantPrefix(ev); (judged && o.Pid == wp && o.Cid == wc) || (!judged && o.Pid == 0 && o.Cid == 0) {
+					rk = 3
+				}
+			}
+			if rk > rank {
+				best, rank = k, rk
+			}
+			if rk == 3 {
+				break
+			}
+		}
+		if best < 0 {
+			orphan[n] = true
+			bad("write #%d at the writer belongs to no logging call (not a whole line of one call): %q", n, clip(p))
+			continue
+		}
+		r := cands[best]
+		ev := &ws[r.g].evs[r.idx]
+		o := parseWrite(p, ev.text)
+		o.idx = n
+		ev.w = append(ev.w, o)
+		firstRef[n] = &r
+	}
+
 	// every logging call against what the property says about its line
 	for _, w := range ws {
 		for i := range w.evs {
@@ -604,6 +921,9 @@ func oneRun(c *rp.Ctx, run int, raw json.RawMessage, rr *raceReader, dir string)
 				continue
 			}
 			call := fmt.Sprintf("goroutine %d call %d logger.%s(%s ctx)", w.g, ev.k, ev.fn, ev.arg.K)
+			if ev.src.K == "win" {
+				call = fmt.Sprintf("goroutine %d call %d logger.%s(%s ctx, back[:%d]...) with operand slice %v (cap %d)", w.g, ev.k, ev.fn, ev.arg.K, ev.src.N, ev.src.B, len(ev.buf.want))
+			}
 			if ev.level == "info" && len(ev.w) == 0 {
 				continue // Switch does not route Info to the writer
 			}
@@ -653,13 +973,16 @@ func oneRun(c *rp.Ctx, run int, raw json.RawMessage, rr *raceReader, dir string)
 			case "new":
 				tr = append(tr, traceLine{"e": "new", "g": g, "c": ev.c, "id": ids[ev.c]})
 			case "alias":
-				tr = append(tr, traceLine{"e": "alias", "g": g, "c": ev.c, "src": ev.src, "id": ids[ev.c]})
+				tr = append(tr, traceLine{"e": "alias", "g": g, "c": ev.c, "src": ev.asrc, "id": ids[ev.c]})
+			case "buf":
+				tr = append(tr, traceLine{"e": "buf", "g": g, "b": ev.c, "cap": ev.cap})
 			default:
 				obs := ev.w
 				if obs == nil {
 					obs = []observed{}
 				}
-				tr = append(tr, traceLine{"e": "log", "g": g, "k": ev.k, "level": ev.level, "arg": ev.arg, "w": obs, "fn": ev.fn})
+				tr = append(tr, traceLine{"e": "log", "g": g, "k": ev.k, "level": ev.level, "arg": ev.arg, "w": obs, "fn": ev.fn,
+					"src": ev.src, "after": ev.after})
 			}
 		}
 	}
@@ -667,8 +990,7 @@ func oneRun(c *rp.Ctx, run int, raw json.RawMessage, rr *raceReader, dir string)
 	for n := range writes {
 		if orphan[n] {
 			tr = append(tr, traceLine{"e": "write", "idx": n, "raw": clip(writes[n])})
-		} else if t := firstTok[n]; t != "" {
-			r := byTok[t]
+		} else if r := firstRef[n]; r != nil {
 			emit(r.g, r.idx)
 		}
 	}
@@ -690,7 +1012,7 @@ func oneRun(c *rp.Ctx, run int, raw json.RawMessage, rr *raceReader, dir string)
 
 	res := rp.Result{I: run, OK: true, Nontriv: true}
 	info := map[string]interface{}{"trace": tracePath, "events": len(tr), "new": nNew, "alias": nAlias, "log": nLog,
-		"routed": nRouted, "writes": len(writes), "closer": recc != nil}
+		"routed": nRouted, "writes": len(writes), "closer": recc != nil, "bufs": nBuf, "win": nWin}
 	res.Info = info
 	lib, other := rr.next()
 	if len(other) > 0 {
